@@ -1,7 +1,7 @@
 """The selection-expression reader (src/selection.rs, extractor.rs, variables_extractor.rs, selection_extractor.rs,
 const_getter.rs) and the option readers (`from_str` of Selection/Filter/Splitter/Sorter/Grouper), executed from MIR on
 skeleton texts with free bytes."""
-import re, json
+import re, json, os
 import z3
 from .lib import *
 from .report import Candidate, Broken
@@ -559,3 +559,139 @@ def expr_nopanic(ctx):
         r = run_jawk(ctx, ['--select', arg], b'1', timeout=10)
         c.replay = {'argv': ['--select', arg], 'rc': r['rc'], 'stderr': show(r['stderr'])[-200:]}
         c.status = 'reproduced' if r['rc'] in (101, 'timeout') or b'panicked' in r['stderr'] else 'unit'
+
+
+# ---------------------------------------------------------------- truncated calls are rejected
+UNBAL = [b'(f 1 :v)', b'(f (g .a) 1)', b'(f)', b'(f "x" (g (h 1)))', b'(.f 1)']
+
+
+def _unbal_task(args):
+    ctx, full, cut, ntail = args
+    tail = [z3.BitVec(f'tail{i}', 8) for i in range(ntail)]
+    text = [z3.BitVecVal(x, 8) for x in full[:cut]] + tail
+    sc = expr_scenario(ctx, text, []); ex = sc.ex
+    st, info = sc.initial(arbitrary=False)
+    for t in tail: st.pc.append(inset(t, SEPS))
+    F = ex.find(r'^read_getter$')
+    KPANICS.clear()
+    ex.new_frame(st, F, [info['rref']])
+    done = ex.run(st) + sc.extra + list(KPANICS)
+    res = {'obl': 0, 'ok': 0, 'cands': [], 'paths': 0, 'samples': []}
+    for d in done:
+        if d.status == 'infeasible': continue
+        res['paths'] += 1; res['obl'] += 1
+        hav = (d.havoc or [None])[0]
+        ok_, m = ex.valid(d, z3.BoolVal(False))
+        tv = bytes(m.eval(t, True).as_long() for t in tail) if m is not None else b''
+        txt = full[:cut] + tv
+        def cand(role, what):
+            res['cands'].append({'role': role, 'text': f'truncated call {txt!r}: {what}', 'model': {'text_hex': txt.hex()}, 'unmodelled': hav})
+        if d.status != 'returned':
+            cand(f'path-{d.status}', f'{d.status} {d.notes[-1:] if d.notes else ""}'); continue
+        r = obj(d, d.ret); rd = cval(ex.discr(d, r).t)
+        if rd == 1:
+            res['ok'] += 1
+            if not res['samples']: res['samples'].append({'text': txt.decode('latin-1'), 'verdict': 'Err for every tail on this path'})
+        else:
+            cand('accepts-unbalanced', 'accepted although a closing parenthesis is missing')
+    res.update(queries=ex.queries, solver_s=ex.solver_s, unhandled=dict(ex.unhandled), summaries=list(ex.used_summaries), bodies=list(ex.used_bodies))
+    return res
+
+
+def unbalanced(ctx):
+    """C18.b: a call whose closing parenthesis(es) are missing at the end of the text is an error, with or without trailing separators"""
+    run = ctx.run
+    nt = (0, 1) if ctx.quick else (0, 1, 2)
+    run.bounds['unbalanced'] = f'every proper prefix of {[u.decode() for u in UNBAL]} that ends inside a call (and not inside a string literal), followed by {nt} free separator bytes'
+    fam = run.family('expr.unbalanced', 'read_getter answers Err for every text that ends inside an open call, whatever functions exist and whatever their arity (find_function / create answer arbitrarily)')
+    tasks = []
+    for full in UNBAL:
+        depth = 0; instr = False
+        for cut in range(1, len(full)):
+            ch = full[cut - 1:cut]
+            if ch == b'"': instr = not instr
+            if not instr: depth += (ch == b'(') - (ch == b')')
+            if depth > 0 and not instr:
+                tasks += [(ctx, full, cut, n) for n in nt]
+    results = pmap(_unbal_task, tasks)
+    alts = {}
+    for r in results:
+        for c in r['cands']: alts.setdefault(c['role'], []).append(c)
+    merge(run, fam, results)
+    from .cli import run_jawk, show
+    for c in fam.candidates:
+      for alt in sorted(alts.get(c.role, []), key=lambda a: -len(a['model']['text_hex']))[:40]:
+          c.model = alt['model']; c.text = alt['text']
+          txt = bytes.fromhex(c.model['text_hex']).decode('latin-1')
+          hits = []
+          # the skeleton's f/g/h stand for any function: try real ones of matching arity
+          for f, g, h in (('+', '+', '+'), ('concat', 'size', 'size'), ('?', 'default', 'default')):
+              real = txt.replace('(f', '(' + f).replace('(g', '(' + g).replace('(h', '(' + h).replace('(.f', '(.' + 'size')
+              argv = ['--set', 'v=7', '--select', real]
+              r = run_jawk(ctx, argv, b'{"a":5}')
+              if r['rc'] == 0: hits.append({'argv': argv, 'rc': r['rc'], 'stdout': show(r['stdout'])})
+          c.replay = {'accepted': hits[:2], 'expected': 'a non-zero exit status with an error message for every one of the spellings tried'}
+          c.status = 'reproduced' if hits else ('not-reproduced' if c.role == 'accepts-unbalanced' and not c.unmodelled else 'not-reproduced')
+          if c.status == 'reproduced': break
+
+
+
+# ---------------------------------------------------------------- arity
+def arity(ctx):
+    """C18.b: FunctionDefinitions::create answers Err exactly when the number of arguments is outside [min, max]"""
+    run = ctx.run
+    run.bounds['arity'] = 'FunctionDefinitions::create with free min_args_count, max_args_count (min <= max) and free argument count (all 64-bit values); the factory call is an opaque value'
+    fam = run.family('expr.arity', 'create(args) is Err iff len(args) < min_args_count or len(args) > max_args_count, for every definition')
+    FD = ctx.structs['FunctionDefinitions']
+    body = ctx.find(r'^functions_definitions::<impl at [^>]*>::create$')
+    impl = body.name.rsplit('::', 1)[0]
+    inl = [(r'FunctionDefinitions::%s$' % n.rsplit('::', 1)[1], '^' + re.escape(n) + '$') for n in ctx.fns
+           if n.startswith(impl + '::') and n.count('::') == impl.count('::') + 1 and n.rsplit('::', 1)[1] not in ('create', 'name', 'names', 'file_name', 'new', 'add_alias', 'add_description_line', 'add_example')]
+    L = z3.BitVec('argc', 64); MN = z3.BitVec('min_args', 64); MX = z3.BitVec('max_args', 64)
+    def s_len(ex, st, func, args, ty): return [(st, BV(L))]
+    def s_name(ex, st, func, args, ty): return [(st, named(st, st.fresh_name('name'), 'String'))]
+    ex = ctx.exec(summaries=[(r'Vec::<.*>::len$', s_len), (r'FunctionDefinitions::name$', s_name)], inline=inl, max_visits=6)
+    st = State(); so = st.new_obj('self', 'FunctionDefinitions')
+    st.heap[so][('f', None, FD.index('min_args_count'))] = BV(MN); st.heap[so][('f', None, FD.index('max_args_count'))] = BV(MX)
+    st.pc.append(z3.ULE(MN, MX))
+    ex.new_frame(st, body, [slot(st, ObjV(so), 'self*'), named(st, 'ARGS', 'Vec')])
+    for d in ex.run(st) + list(ex.extra_paths):
+        if d.status == 'infeasible': continue
+        run.paths += 1; fam.paths += 1; fam.obligations += 1
+        hav = (d.havoc or [None])[0]
+        bad_count = z3.Or(z3.ULT(L, MN), z3.UGT(L, MX))
+        if d.status != 'returned':
+            want = None; okk, m = ex.valid(d, z3.BoolVal(False))
+        else:
+            r = obj(d, d.ret); rd = ex.discr(d, r).t
+            okk, m = ex.valid(d, (rd == 1) == bad_count)
+        if okk and d.status == 'returned':
+            fam.discharged += 1; fam.witnesses += 1
+            if len(fam.samples) < 3: fam.add_sample({'path': [str(z3.simplify(c))[:80] for c in d.pc[-2:]], 'verdict': 'Err iff the count is outside [min, max] on this path'})
+            continue
+        mv = {k: m.eval(v, True).as_long() for k, v in (('argc', L), ('min', MN), ('max', MX))} if m is not None else {}
+        role = 'arity-wrong' if d.status == 'returned' else f'path-{d.status}'
+        c = Candidate(fam.name, role, f'FunctionDefinitions::create with min={mv.get("min")} max={mv.get("max")} and {mv.get("argc")} arguments: ' +
+                      ('answers Ok/Err against the range' if d.status == 'returned' else d.status), mv, unmodelled=hav if d.status != 'returned' else None)
+        fam.candidates.append(c)
+    run.queries += ex.queries; run.solver_s += ex.solver_s
+    for b in ex.used_bodies: run.functions[b] = True
+    # native: every function of the table with one argument more than its maximum and one less than its minimum
+    if fam.candidates:
+        from .cli import run_jawk, show
+        table = []
+        for root, _, files in os.walk(os.path.join(ctx.tree.src, 'src', 'functions')):
+            for fn in files:
+                txt = open(os.path.join(root, fn), errors='replace').read()
+                for m in re.finditer(r'FunctionDefinitions::new\(\s*"((?:[^"\\]|\\.)*)",\s*(\d+|usize::MAX),\s*(\d+|usize::MAX),', txt):
+                    table.append((m.group(1), int(m.group(2)) if m.group(2).isdigit() else None, int(m.group(3)) if m.group(3).isdigit() else None))
+        hits = []
+        for name, mn, mx in table:
+            if '"' in name or '\\' in name: continue
+            for n in ([mx + 1] if mx is not None and mx < 12 else []) + ([mn - 1] if mn else []):
+                argv = ['--select', '(' + name + ' 1' * n + ')']
+                r = run_jawk(ctx, argv, b'1')
+                if r['rc'] == 0: hits.append({'argv': argv, 'declared': [mn, mx], 'arguments': n, 'rc': 0, 'stdout': show(r['stdout'])[:80]})
+        for c in fam.candidates:
+            c.replay = {'accepted_out_of_range': hits[:4], 'functions_tried': len(table)}
+            c.status = 'reproduced' if hits else 'unit'
